@@ -152,6 +152,13 @@ morx   {"version": 2, "chains": [{"default_flags": u32,
 feat   [{"type": t, "settings": [s... | (s, nameIndex)...], "exclusive": bool, "default_index": n|None, "name_index": n}]
        records sorted by type unless a record list wrapper {"raw": True, "names": [...]} is used.
 
+Field overrides for deliberately inconsistent fonts (all optional; default = the consistent value):
+    sfnt_version (top level); gsub/gpos "major"; LangSys "lookup_order"; feature "params"; context rule "glyph_count"
+    (also on format 3 subtables); ligature "comp_count"; pair format 2 "class1_count" / "class2_count"; gdef
+    "mark_sets_format"; any lookup subtable "format" (written as is while the payload follows the recipe keys);
+    kern subtable "version", "length", "format", "coverage"; morx "nchains", chain "length", subtable "length",
+    "coverage"; feat record "flags"; morx entries may be raw bytes.
+
 Notes on what ttf-parser 0.25 / rustybuzz actually require (checked against the sources):
   * sfnt table directory is binary searched: always written sorted by tag.  head (>= 54 bytes, upem 16..16384,
     indexToLocFormat 0|1), hhea (>= 36 bytes), maxp (version 0.5 or 1.0, numGlyphs != 0) are mandatory.
